@@ -19,7 +19,7 @@ from ..dataflow import single_assign_subst, target_names, mutations_in, linform,
 from ..solver_model import solver_function, Sweep
 from ..cfg import raised_name, exc_is_a, handler_types, atomic_facts
 
-TECHNIQUE = ('static analysis on the flattened search: sign-domain evaluation of denominators, write-set computation through `self` vs the (deep or hand-built) copy, product search per pass of the acceptance loop (recorded / installed / last tolerance outcome) and from entry to the normal return, set agreement of tested and installed variables')
+TECHNIQUE = ('static analysis on the flattened search: sign-domain evaluation of denominators, write-set computation through `self` vs the (deep or hand-built) copy, product search per pass of the acceptance loop (recorded / installed / last tolerance outcome) and from entry to the normal return, set agreement of tested and installed variables; NaN walk shared with C02.R1; index of the frozen exogenous item')
 EXPLANATION = (
     'Every tolerance quotient with an absolute-difference numerator must have a provably non-negative denominator (so a '
     'negative-valued series cannot pass the relative test by sign); the search may write through self only to '
@@ -470,6 +470,14 @@ def run(prog, check):
     # an overflowing search is not a steady state: the step solver the search runs on does not take a NaN error for convergence
     from .C02 import nan_stops_the_period
     nan_stops_the_period(check, Sweep(prog), 'C15.R3', 'a search on an explosive system (x = 50*x(k-1) + G): inf must not be installed at k=0')
+    # the change of a series is |last - previous|; a difference of absolute values is zero for x -> -x and negative for a shrinking
+    # magnitude (judged wherever two abs(..) calls are subtracted in the search)
+    for x_ in ast.walk(ss.node):
+        if isinstance(x_, ast.BinOp) and isinstance(x_.op, ast.Sub) and all(
+                isinstance(o_, ast.Call) and call_name(o_) in ('abs', 'fabs') for o_ in (x_.left, x_.right)):
+            check.ob('C15.R1', '%s::change-is-abs-of-difference(%s)' % (ss.key, unparse(x_)), False, '%s:%d' % (ss.module.rel, x_.lineno),
+                     '`%s` is a difference of absolute values, not the absolute value of the difference: a series that flips sign or '
+                     'shrinks in magnitude passes the test while it still moves' % unparse(x_), 'x = -x(k-1): moves from 1 to -1 every period')
     # convergence error => value error
     conv = False
     for n in ast.walk(ss.node):
